@@ -1,8 +1,6 @@
-(* Conc/PipelineLiveGen6.v — who can move, in the whole system; deadlock freedom except for the
-   starved flush task *)
+(* Conc/PipelineLiveGen6.v — who can move, in the whole system; deadlock freedom except for the whole system *)
 From Coq Require Import List Arith Bool Lia.
-From SKV Require Import Conc.Pipeline Conc.PipelineExplore Conc.PipelineSpec Conc.PipelineLiveCore Conc.PipelineLiveCore2
-  Conc.PipelineLiveCore3 Conc.PipelineLiveCore4 Conc.PipelineLiveCore5
+From SKV Require Import Conc.Pipeline Conc.PipelineExplore Conc.PipelineSpec Conc.PipelineLiveBase
   Conc.PipelineLiveGen Conc.PipelineLiveGen2 Conc.PipelineLiveGen3 Conc.PipelineLiveGen4 Conc.PipelineLiveGen5.
 Import ListNotations.
 
@@ -114,7 +112,6 @@ Proof.
     destruct Htq as [_ Hq]. destruct (getb_exists s p ltac:(lia)) as [b Hb].
     prog Ht LPubCompleted. unfold step_commit. rewrite Hpc, Hb. reflexivity.
   - (* CPubExit *) prog Ht LPublished. unfold step_commit. rewrite Hpc. reflexivity.
-  - (* CRetErr *) prog Ht (LRet ResErr). unfold step_commit. rewrite Hpc. reflexivity.
 Qed.
 
 
@@ -131,12 +128,12 @@ Proof. unfold won. intros p t. destruct (t_pc t); simpl; auto; discriminate. Qed
 Lemma wait_done_progress_g : forall c s i t, GInv c s -> thr_at s i t -> t_pc t = CWaitDone -> progress_step c s.
 Proof.
   intros c s i t HI Ht Hpc.
-  pose proof (g_thr c s HI i t Ht) as [_ [_ Htq]]. rewrite Hpc in Htq. destruct Htq as [Htq Hterr].
+  pose proof (g_thr c s HI i t Ht) as [_ [_ Htq]]. rewrite Hpc in Htq.
   pose proof (g_ht c s HI) as [Hht1 [Hht2 [Hht3 Hht4]]].
   destruct (my_batch_exists s t _ Htq Hht3) as [p [b [Hmb [Hmy [Hb Hp]]]]].
   destruct (b_res b) as [[|]|] eqn:Hr.
   - prog Ht (LRet ResOk). unfold step_commit. rewrite Hpc, Hmb, Hr. reflexivity.
-  - pose proof (g_err c s HI i t p b Ht Hmy Hb Hr). congruence.
+  - prog Ht (LRet ResErr). unfold step_commit. rewrite Hpc, Hmb, Hr. reflexivity.
   - destruct (Nat.lt_ge_cases p (qtail s)) as [Hlt|Hge].
     + (* dequeued: somebody holds it *)
       pose proof (g_deq c s HI p b Hlt Hb Hr) as Hd.
@@ -246,8 +243,21 @@ Proof.
     + eapply (flush_progress c s LMemIdle). unfold step_flush. rewrite Hf, Hc. reflexivity.
     + eapply (flush_progress c s LMemNotifiedLevel). unfold step_flush. rewrite Hf, Hc. reflexivity.
   - right; right. eapply (flush_progress c s LMemIdle). unfold step_flush. rewrite Hf. reflexivity.
+  - right; right. destruct (negb (g_ffailed (bg s)) && (0 <? g_imm (bg s))) eqn:E.
+    + eapply (flush_progress c s LMemRecheck). unfold step_flush. rewrite Hf, E. reflexivity.
+    + eapply (flush_progress c s LMemWait). unfold step_flush. rewrite Hf.
+      assert (E2 : g_ffailed (bg s) || (g_imm (bg s) =? 0) = true).
+      { destruct (g_ffailed (bg s)); simpl in *; auto. destruct (g_imm (bg s)); simpl in *; auto; try discriminate. }
+      rewrite E2. reflexivity.
   - right; right. eapply (flush_progress c s LMemWait). unfold step_flush. rewrite Hf. reflexivity.
   - left. reflexivity.
+Qed.
+
+Lemma nrot_pos : forall l, 0 < nrot l -> exists j tj, nth_error l j = Some tj /\ t_pc tj = CRotated.
+Proof.
+  induction l as [|a l IH]; simpl; intros H; [lia|].
+  destruct (t_pc a) eqn:E; try (destruct (IH ltac:(lia)) as [j [tj [Hj Hp]]]; exists (S j), tj; auto).
+  exists 0, a. auto.
 Qed.
 
 Lemma leveler_moves : forall c s, GInv c s ->
@@ -270,16 +280,21 @@ Proof.
 Qed.
 
 (* E: a stalled committer *)
-Lemma stall_blocked_progress : forall c s i t ep, GInv c s -> ~ flush_starved c s -> thr_at s i t ->
+Lemma stall_blocked_progress : forall c s i t ep, GInv c s -> 2 <= c_memlimit c -> thr_at s i t ->
   t_pc t = CStallBlocked ep -> progress_step c s.
 Proof.
-  intros c s i t ep HI Hns Ht Hpc.
+  intros c s i t ep HI Hmem Ht Hpc.
   destruct (Nat.eq_dec ep (g_epoch (bg s))) as [Heq|Hne].
   - destruct (g_stall c s HI i t ep Ht (or_intror Hpc) Heq) as [Hsd Him].
-    destruct (g_bgi c s HI) as [B1 [_ [_ [B4 _]]]].
+    destruct (g_bgi c s HI) as [B1 [_ [_ [B4 [_ [_ [_ [_ [B9 _]]]]]]]]].
     destruct (flusher_moves c s HI) as [Hf|[[Hf Hp]|Hprog]]; auto.
     + rewrite (B1 (B4 Hf)) in Hsd. discriminate.
-    + exfalso. apply Hns. unfold flush_starved. destruct Him as [Him|Him]; [|congruence]. auto.
+    + (* the flush task sleeps without a permit: a rotated committer still owes its wake-up *)
+      destruct (g_ffailed (bg s)) eqn:Hff; [rewrite (B9 eq_refl) in Hsd; discriminate|].
+      pose proof (g_acc c s HI (or_intror Hf) Hp Hff) as Ha.
+      destruct Him as [Him|Him]; [|congruence].
+      destruct (nrot_pos (thrs s) ltac:(lia)) as [j [tj [Hj Hr]]].
+      apply (local_progress_g c s j tj HI Hj). rewrite Hr. reflexivity.
   - prog Ht LStallRegistered. unfold step_commit. rewrite Hpc.
     assert (Hc : (ep =? g_epoch (bg s)) = false) by (apply Nat.eqb_neq; exact Hne). rewrite Hc. reflexivity.
 Qed.
@@ -288,7 +303,7 @@ Qed.
 Lemma closing_progress : forall c s, GInv c s -> closing s = true -> progress_step c s.
 Proof.
   intros c s HI Hcl. unfold closing in Hcl.
-  destruct (g_bgi c s HI) as [B1 [B2 [B3 [B4 [B5 [B6 [B7 B8]]]]]]].
+  destruct (g_bgi c s HI) as [B1 [B2 [B3 [B4 [B5 [B6 [B7 [B8 _]]]]]]]].
   destruct (g_xpc (bg s)) eqn:Hx; try discriminate Hcl.
   - eapply (closer_progress c s LClosePipeDown); [unfold step_closer; rewrite Hx; reflexivity | reflexivity | reflexivity].
   - eapply (closer_progress c s (LSignal true)); [unfold step_closer; rewrite Hx; reflexivity | reflexivity | reflexivity].
@@ -314,9 +329,9 @@ Proof.
   - eapply (closer_progress c s (LRet ResOk)); [unfold step_closer; rewrite Hx; reflexivity | reflexivity | reflexivity].
 Qed.
 
-Theorem gen_progress : forall c s, GInv c s -> 0 < c_permits c -> ~ flush_starved c s -> unfinished s -> progress_step c s.
+Theorem gen_progress : forall c s, GInv c s -> 0 < c_permits c -> 2 <= c_memlimit c -> unfinished s -> progress_step c s.
 Proof.
-  intros c s HI Hperm Hns [[i [t [Ht Hact]]]|Hcl].
+  intros c s HI Hperm Hmem [[i [t [Ht Hact]]]|Hcl].
   - destruct (nonblockingG (t_pc t)) eqn:Hnb; [eapply local_progress_g; eauto|].
     unfold active in Hact. destruct (t_pc t) eqn:Hpc; simpl in *; try discriminate.
     + eapply stall_blocked_progress; eauto.
